@@ -143,6 +143,19 @@ impl<T: num_traits::NumCast + Copy> Conditional<T> for DetCond {
         num_traits::cast(((o * 3.0 + i as f64 + 1.0) as i64 % 17) as f64).unwrap()
     }
 }
+/// 24 coordinates, every third one clamped to a constant (its diagnostics are NaN, those of the others finite).
+#[derive(Clone)]
+struct WideCond;
+impl<T: num_traits::NumCast + Copy> Conditional<T> for WideCond {
+    fn sample(&mut self, i: usize, given: &[T]) -> T {
+        if i % 3 == 0 {
+            return num_traits::cast(7.0).unwrap();
+        }
+        let o: f64 = num_traits::cast(given[(i + 1) % given.len()]).unwrap();
+        let me: f64 = num_traits::cast(given[i]).unwrap();
+        num_traits::cast(((o * 3.0 + me * 5.0 + i as f64 + 1.0) as i64 % 17) as f64).unwrap()
+    }
+}
 #[derive(Clone)]
 struct IntTarget;
 impl Target<i32, f64> for IntTarget {
@@ -288,6 +301,19 @@ pub fn config(args: &[String]) {
                     Ok((d, st)) => {
                         if let Some(w) = cmp_arrays(&d, &b.run(nc, nd).unwrap()) { why.push(w); }
                         if !same_stats(&st, &RunStats::from(d.view())) { why.push("diagnostics differ from those of the returned draws".into()); }
+                    }
+                }
+            }
+            ("GibbsWide", _) => {
+                // many parameters, some of them constant: the summary has to cope with NaN diagnostics among finite ones
+                let inits: Vec<Vec<f64>> = (0..n).map(|i| (0..24).map(|k| if k % 3 == 0 { 7.0 } else { (i + k) as f64 }).collect()).collect();
+                let mut a = GibbsSampler::new(WideCond, inits.clone()).set_seed(1);
+                let mut b = GibbsSampler::new(WideCond, inits).set_seed(1);
+                if pre { let _ = a.run(3, 2); let _ = b.run(3, 2); }
+                match a.run_progress(nc, nd) {
+                    Err(e) => why.push(format!("Err: {e}")),
+                    Ok((d, _st)) => {
+                        if let Some(w) = cmp_arrays(&d, &b.run(nc, nd).unwrap()) { why.push(w); }
                     }
                 }
             }
